@@ -206,12 +206,13 @@ def _fix_undefined_variables(source: str, variables: Collection[str]) -> str:
             logger.debug("Inserting '{fix}' at line {lineno}", fix=fix, lineno=lineno)
             lines.insert(lineno, fix)
 
-    for package in (constants.ASSUMED_PACKAGES | constants.PYTHON_311_STDLIB) & variables:
+    # Sorted: the lines are inserted one above the other, and a set of names has no order
+    for package in sorted((constants.ASSUMED_PACKAGES | constants.PYTHON_311_STDLIB) & variables):
         fix = f"import {package}"
         logger.debug("Inserting '{fix}' at line {lineno}", fix=fix, lineno=lineno)
         lines.insert(lineno, fix)
 
-    for alias in constants.PACKAGE_ALIASES.keys() & variables:
+    for alias in sorted(constants.PACKAGE_ALIASES.keys() & variables):
         package = constants.PACKAGE_ALIASES[alias]
         fix = f"import {package} as {alias}"
         logger.debug("Inserting '{fix}' at line {lineno}", fix=fix, lineno=lineno)
